@@ -23,8 +23,17 @@ def gen_case(rng, op):
         oid = M.gen_oid(rng)
         return {"op": "get", "oid": oid, "vbs": [(oid, v)]}
     if op == "get_many":
-        n = rng.choice([0, 1, 2, 3, 5, 8, 13, 40, rng.randrange(0, 41)])
+        n = rng.choice([0, 1, 2, 3, 5, 8, 13, 40, rng.randrange(0, 41), rng.choice([255, 256, 257])])
         oids, seen = [], set()
+        if n >= 255:
+            # more varbinds than a u8 counts, kept small enough for one datagram: short names, small INTEGERs
+            while len(oids) < n:
+                o = (1, 3, rng.randrange(0, 128), rng.randrange(0, 128))
+                if o not in seen:
+                    seen.add(o)
+                    oids.append(o)
+            vals = [rng.randrange(-128, 128) for _ in oids]
+            return {"op": "get_many", "oids": oids, "vbs": [(o, {"kind": "Int", "tlv": B.enc_int(v), "py": v, "cls": "Int:1:many"}) for o, v in zip(oids, vals)]}
         while len(oids) < n:
             o = M.gen_oid(rng)
             if o not in seen:
@@ -113,6 +122,9 @@ def worker(job):
         else:
             base_txt = M.spell(state["rng"], c["base"], 0.3)   # the caller's spelling of the base must not show in the keys
             args = (base_txt,) if op == "getnext" else (base_txt, state["rng"].choice([1, 5, 20, 50]))
+            if i % 7 == 3 and len(c["vbs"]) >= 2:
+                # the same walk started and left after its first row (the rest of the page unread), then walked for real
+                drv.call(op, *args, limit=1)
             out = drv.call(op, *args, limit=200)
             exp = ("ok", [(B.oid_text(o), v["py"]) for o, v in c["vbs"]])
         res["cases"] += 1
